@@ -290,12 +290,20 @@ def _stage2(shard):
 def universes(ctx):
     sig_x = build.shape_signature(("x",), 2)
     doms_x = build.all_types(("x",), 3)
+    # two wire types (a wrong left/middle/right split of a layer only shows with distinct types)
+    sig_xy = [s for s in build.shape_signature(("x", "y"), 1)]
+    sig_xy += [("box", "sxy_x", ("x", "y"), ("x",)), ("box", "sy_yx", ("y",), ("y", "x")),
+               ("box", "sx_xy", ("x",), ("x", "y")), ("box", "syx_", ("y", "x"), ()),
+               ("box", "s_xy", (), ("x", "y"))]
+    doms_xy = build.all_types(("x", "y"), 3)
     if ctx.quick:
         plan = [("x:depth<=3,width<=3", sig_x, doms_x, 3, 3),
-                ("x:depth<=4,width<=2", sig_x, build.all_types(("x",), 2), 4, 2)]
+                ("x:depth<=4,width<=2", sig_x, build.all_types(("x",), 2), 4, 2),
+                ("xy:depth<=2,width<=3", sig_xy, doms_xy, 2, 3)]
     else:
         plan = [("x:depth<=4,width<=3", sig_x, doms_x, 4, 3),
-                ("x:depth<=5,width<=2", sig_x, build.all_types(("x",), 2), 5, 2)]
+                ("x:depth<=5,width<=2", sig_x, build.all_types(("x",), 2), 5, 2),
+                ("xy:depth<=3,width<=3", sig_xy, doms_xy, 3, 3)]
     ctx.bounds["universes"] = [p[0] for p in plan]
     ctx.bounds["class_cap"] = CLASS_CAP
     for label, sig, doms, depth, width in plan:
